@@ -178,12 +178,15 @@ func checkQuery(c xcase, o obs, in map[string]any) {
 		Viol(kQuery, "a secret is configured and the query asks for TSIG, but what Transfer.In wrote does not end in a TSIG record", in)
 		return
 	}
-	if string(lowerWire(p.name)) != string(nameWire(c.kname())) {
+	if string(lowerWire(p.name)) != string(lowerWire(nameWire(c.kname()))) {
 		Viol(kQuery, "the TSIG record of the query has another key name than the query asked for", in)
 		return
 	}
 	if !refVerify(stripped, p, c.rsecret(), nil, false) {
 		why := "the MAC of the query written by Transfer.In is not the HMAC of the query under the secret configured in Transfer.TsigSecret for its key name"
+		if c.kname() != strings.ToLower(c.kname()) || c.algName() != strings.ToLower(c.algName()) {
+			why += fmt.Sprintf(" (RFC 8945 4.3.3 digest, in which key name and algorithm name stand in canonical form - lower case, uncompressed - however they are spelled; the caller spelled them %q and %q)", c.kname(), c.algName())
+		}
 		for _, s := range secretPool {
 			if s != c.rsecret() && refVerify(stripped, p, s, nil, false) {
 				why += " (it is the HMAC under secret " + secretName(s) + ", which is not configured for this transfer)"
@@ -529,6 +532,9 @@ type outStep struct {
 	more map[string]string
 	alg  string
 	lib  bool // the peer is Transfer.In instead of the harness's own client
+	// algSpell: the algorithm name as the peer spells it in its request ("" = the lower
+	// case constant); name is the key name as both sides spell it (names.go)
+	algSpell string
 }
 
 func (s outStep) String() string {
@@ -538,6 +544,9 @@ func (s outStep) String() string {
 	}
 	if s.alg != "" {
 		x += "," + strings.TrimSuffix(s.alg, ".")
+	}
+	if s.algSpell != "" {
+		x += ",spelled " + s.algSpell
 	}
 	return x
 }
@@ -587,7 +596,7 @@ func rawPeer(conn net.Conn, c xcase, s outStep) (envs []outEnv, infra string) {
 	var prev []byte
 	if s.cli != "" {
 		var mac string
-		packed, mac = refSign(packed, s.name, s.alg, s.cli, uint64(time.Now().Unix()), 300, "", false)
+		packed, mac = refSign(packed, s.name, c.algName(), s.cli, uint64(time.Now().Unix()), 300, "", false)
 		prev, _ = hex.DecodeString(mac)
 	}
 	frame := append([]byte{byte(len(packed) >> 8), byte(len(packed))}, packed...)
@@ -616,7 +625,7 @@ func rawPeer(conn net.Conn, c xcase, s outStep) (envs []outEnv, infra string) {
 		}
 		if p, stripped, ok := tsigOf(b); ok {
 			e.Tsig = true
-			e.KeyName = string(lowerWire(p.name)) == string(nameWire(s.name))
+			e.KeyName = string(lowerWire(p.name)) == string(lowerWire(nameWire(s.name)))
 			now := uint64(time.Now().Unix())
 			e.TimeOK = p.time+uint64(p.fudge) >= now && now+uint64(p.fudge) >= p.time
 			if s.cli != "" {
@@ -640,7 +649,7 @@ func outCase(r *Rng, s outStep, fam, hist string) (xcase, [][]rrd) {
 	envs := randomComposition(r, fs.stream)
 	c := base(fs.kind, s.cli != "", fam, r)
 	c.Chunk, c.Stall = 0, false
-	c.KeyName, c.RecvSecret, c.Alg, c.Step = s.name, s.cli, s.alg, hist
+	c.KeyName, c.RecvSecret, c.Alg, c.Step, c.AlgSpell = s.name, s.cli, s.alg, hist, s.algSpell
 	c.Reads = goodReads(c, envs, s.cli != "" && s.cli == s.srv)
 	return c, envs
 }
@@ -650,6 +659,10 @@ func outCase(r *Rng, s outStep, fam, hist string) (xcase, [][]rrd) {
 // two connections, while no connection is open)
 func runOutSeq(r *Rng, fam string, steps []outStep, restart bool) {
 	st["sequences_"+fam]++
+	kOut := kSeq + "/out"
+	if strings.HasPrefix(fam, "names-") {
+		kOut = "C15/tsig-names-in-mixed-case/out"
+	}
 	var p *primary
 	defer func() {
 		if p != nil {
@@ -731,11 +744,11 @@ func runOutSeq(r *Rng, fam string, steps []outStep, restart bool) {
 			want := s.cli == "" || s.cli == s.srv
 			switch {
 			case want && !good:
-				Viol(kSeq+"/out", "transfer "+h+": primary and secondary are configured alike (or the secondary verifies nothing) and the zone is not delivered exactly", in)
+				Viol(kOut, "transfer "+h+": primary and secondary are configured alike (or the secondary verifies nothing) and the zone is not delivered exactly", in)
 			case !want && (len(o.errs) == 0 || o.errs[len(o.errs)-1] == "-"):
-				Viol(kSeq+"/out", "transfer "+h+": the secondary holds a secret the primary is not configured with and the transfer is reported complete and error-free", in)
+				Viol(kOut, "transfer "+h+": the secondary holds a secret the primary is not configured with and the transfer is reported complete and error-free", in)
 			case !want && len(o.items) != 1:
-				Viol(kSeq+"/out", "transfer "+h+": envelopes were delivered although primary and secondary hold different secrets", in)
+				Viol(kOut, "transfer "+h+": envelopes were delivered although primary and secondary hold different secrets", in)
 			}
 			continue
 		}
@@ -760,22 +773,22 @@ func runOutSeq(r *Rng, fam string, steps []outStep, restart bool) {
 		case srvHas && s.cli != "" && s.cli == s.srv:
 			// the peer holds the secret configured now: request accepted, every envelope verifies in the chain
 			if stat != "-" {
-				Viol(kSeq+"/out", "transfer "+h+": the request is signed with the secret the primary is configured with and TsigStatus is "+stat, in)
+				Viol(kOut, "transfer "+h+": the request is signed with the secret the primary is configured with and TsigStatus is "+stat, in)
 			}
 			for k, e := range got {
 				if !e.Tsig || !e.Verifies || !e.KeyName || !e.TimeOK {
-					Viol(kSeq+"/out", fmt.Sprintf("transfer %s: envelope %d written by Transfer.Out does not verify (running MAC chain, RFC 8945) with the secret the primary is configured with", h, k), in)
+					Viol(kOut, fmt.Sprintf("transfer %s: envelope %d written by Transfer.Out does not verify (running MAC chain, RFC 8945) with the secret the primary is configured with", h, k), in)
 					break
 				}
 			}
 		case srvHas && s.cli != "":
 			// the peer holds another secret (the old one, or one the primary never had)
 			if stat == "-" {
-				Viol(kSeq+"/out", "transfer "+h+": the request is signed with a secret the primary is not configured with and TsigStatus is nil", in)
+				Viol(kOut, "transfer "+h+": the request is signed with a secret the primary is not configured with and TsigStatus is nil", in)
 			}
 			for k, e := range got {
 				if e.Verifies {
-					Viol(kSeq+"/out", fmt.Sprintf("transfer %s: envelope %d written by Transfer.Out verifies with secret %s, which the primary is not configured with", h, k, secretName(s.cli)), in)
+					Viol(kOut, fmt.Sprintf("transfer %s: envelope %d written by Transfer.Out verifies with secret %s, which the primary is not configured with", h, k, secretName(s.cli)), in)
 					break
 				}
 			}
@@ -783,7 +796,7 @@ func runOutSeq(r *Rng, fam string, steps []outStep, restart bool) {
 		// whatever the peer holds: an envelope never carries a MAC made with a secret that is not configured now
 		for k, e := range got {
 			if e.Other != "" && (!srvHas || secretName(s.srv) != e.Other) {
-				Viol(kSeq+"/out", fmt.Sprintf("transfer %s: envelope %d written by Transfer.Out carries a MAC made with secret %s, the primary is configured with %s", h, k, e.Other, secretName(s.srv)), in)
+				Viol(kOut, fmt.Sprintf("transfer %s: envelope %d written by Transfer.Out carries a MAC made with secret %s, the primary is configured with %s", h, k, e.Other, secretName(s.srv)), in)
 				break
 			}
 		}
